@@ -1,1 +1,246 @@
 // in-crate Kani harnesses included into the real crate under cfg(kani) (see MANIFEST.hooks)
+// C12 (K3): host.rs — `is_valid_domain`, `parse_host_header` (private), `SingleDomain`, `MultiDomain`.
+//
+// Alphabet of every symbolic host / domain byte: { 'a', 'b', '.', ':', '1' }.
+// References are written from the property statement ("a host is resolved against the configured base domain
+// it belongs to; configurations with overlapping or invalid domains are refused") and from the host syntax of
+// RFC 1123 2.1 / RFC 3986 3.2 (`host [ ":" port ]`, dot-separated non-empty labels of letters and digits),
+// not from the implementation.
+mod verif_kani_host {
+    use super::*;
+    use core::mem::forget;
+
+    fn assume_alphabet(b: &[u8]) {
+        let mut i = 0;
+        while i < b.len() {
+            let c = b[i];
+            kani::assume(c == b'a' || c == b'b' || c == b'.' || c == b':' || c == b'1');
+            i += 1;
+        }
+    }
+
+    /// safe view (the crate forbids unsafe code); the bytes are ASCII by `assume_alphabet`
+    fn text(b: &[u8]) -> &str {
+        core::str::from_utf8(b).unwrap()
+    }
+
+    fn alnum(c: u8) -> bool {
+        (c >= b'a' && c <= b'z') || (c >= b'A' && c <= b'Z') || (c >= b'0' && c <= b'9')
+    }
+
+    /// Reference: `host [ ":" port ]`; host = non-empty labels of letters/digits separated by single dots
+    /// (a '-' inside a label is legal too but is outside the alphabet of these harnesses); port = 1*DIGIT with
+    /// a value <= 65535.
+    fn ref_valid_domain(d: &[u8]) -> bool {
+        let n = d.len();
+        // position of the first ':' (n if none)
+        let mut colon = n;
+        let mut i = n;
+        while i > 0 {
+            i -= 1;
+            if d[i] == b':' {
+                colon = i;
+            }
+        }
+        // host part d[..colon]
+        if colon == 0 {
+            return false;
+        }
+        let mut label_len = 0;
+        let mut i = 0;
+        while i < n {
+            if i < colon {
+                let c = d[i];
+                if c == b'.' {
+                    if label_len == 0 {
+                        return false;
+                    }
+                    label_len = 0;
+                } else if alnum(c) || c == b'-' {
+                    label_len += 1;
+                } else {
+                    return false;
+                }
+            }
+            i += 1;
+        }
+        if label_len == 0 {
+            return false;
+        }
+        // port part d[colon+1..]
+        if colon < n {
+            if colon + 1 == n {
+                return false;
+            }
+            let mut v: u64 = 0;
+            let mut i = 0;
+            while i < n {
+                if i > colon {
+                    let c = d[i];
+                    if !(c >= b'0' && c <= b'9') {
+                        return false;
+                    }
+                    v = v * 10 + (c - b'0') as u64;
+                    if v > 65535 {
+                        return false;
+                    }
+                }
+                i += 1;
+            }
+        }
+        true
+    }
+
+    /// `h` is exactly the base domain `d`
+    fn ref_equals(h: &[u8], d: &[u8]) -> bool {
+        if h.len() != d.len() {
+            return false;
+        }
+        let mut i = 0;
+        while i < d.len() {
+            if h[i] != d[i] {
+                return false;
+            }
+            i += 1;
+        }
+        true
+    }
+
+    /// `h` = prefix + "." + `d`  (a dotted sub-domain of the base domain); returns the prefix length
+    fn ref_subdomain(h: &[u8], d: &[u8]) -> Option<usize> {
+        if h.len() < d.len() + 1 {
+            return None;
+        }
+        let p = h.len() - d.len() - 1;
+        if h[p] != b'.' {
+            return None;
+        }
+        let mut i = 0;
+        while i < d.len() {
+            if h[p + 1 + i] != d[i] {
+                return None;
+            }
+            i += 1;
+        }
+        Some(p)
+    }
+
+    fn same_bytes(a: &[u8], b: &[u8]) -> bool {
+        if a.len() != b.len() {
+            return false;
+        }
+        let mut ok = true;
+        let mut i = 0;
+        while i < b.len() {
+            if a[i] != b[i] {
+                ok = false;
+            }
+            i += 1;
+        }
+        ok
+    }
+
+    /// The resolution of host `h` against base domain `d` is right: domain = d, no bucket if h == d,
+    /// bucket = the prefix if h = prefix.d, and bucket + "." + domain is the host again.
+    fn resolved_to(vh: &VirtualHost<'_>, h: &[u8], d: &[u8]) -> bool {
+        if !same_bytes(vh.domain().as_bytes(), d) {
+            return false;
+        }
+        if ref_equals(h, d) {
+            return vh.bucket().is_none();
+        }
+        match (ref_subdomain(h, d), vh.bucket()) {
+            (Some(p), Some(b)) => {
+                b.len() == p && b.len() + 1 + vh.domain().len() == h.len() && same_bytes(b.as_bytes(), &h[..p])
+            }
+            _ => false,
+        }
+    }
+
+    // ----------------------------------------------------------------------------------------------
+    // is_valid_domain
+    // ----------------------------------------------------------------------------------------------
+
+    /// every text of N bytes over the alphabet: `is_valid_domain` == the reference syntax
+    fn valid_domain<const N: usize>() {
+        let d: [u8; N] = kani::any();
+        assume_alphabet(&d);
+        let got = is_valid_domain(text(&d));
+        let want = ref_valid_domain(&d);
+        assert!(want || !got, "an invalid domain is taken for valid");
+        assert!(!want || got, "a valid domain is taken for invalid");
+        kani::cover!(N == 0 || got);
+        kani::cover!(!got);
+    }
+
+    macro_rules! valid_domain_harness {
+        ($name:ident, $n:expr, $unwind:expr) => {
+            #[kani::proof]
+            #[kani::unwind($unwind)]
+            #[kani::stub(core::slice::memchr::memchr, verif_naive_memchr)]
+            fn $name() {
+                valid_domain::<$n>();
+            }
+        };
+    }
+    valid_domain_harness!(c12_is_valid_domain_0, 0, 2);
+    valid_domain_harness!(c12_is_valid_domain_1, 1, 3);
+    valid_domain_harness!(c12_is_valid_domain_2, 2, 4);
+    valid_domain_harness!(c12_is_valid_domain_3, 3, 5);
+    valid_domain_harness!(c12_is_valid_domain_4, 4, 6);
+    // N = 5 (unwind 7) exhausts 8 GB (11 M variables already at N = 3 with a loose unwind): the nested
+    // split('.') / CharSearcher / memchr loops cannot be bounded by constant propagation.  Longer domains are
+    // covered through the public constructor in /verif/kani/ext/src/c12_host.rs (no UTF-8 validation there).
+
+    pub fn verif_naive_memchr(x: u8, text: &[u8]) -> Option<usize> {
+        let mut i = 0;
+        while i < text.len() {
+            if text[i] == x {
+                return Some(i);
+            }
+            i += 1;
+        }
+        None
+    }
+
+    // ----------------------------------------------------------------------------------------------
+    // parse_host_header (private): one base domain of D bytes, a host of H bytes
+    // ----------------------------------------------------------------------------------------------
+
+    fn resolve<const D: usize, const H: usize>() {
+        let d: [u8; D] = kani::any();
+        assume_alphabet(&d);
+        let h: [u8; H] = kani::any();
+        assume_alphabet(&h);
+        let got = parse_host_header(text(&d), text(&h));
+        let belongs = ref_equals(&h, &d) || ref_subdomain(&h, &d).is_some();
+        match &got {
+            Some(vh) => {
+                assert!(belongs, "a host that does not belong to the base domain is resolved against it");
+                assert!(resolved_to(vh, &h, &d));
+            }
+            None => assert!(!belongs, "a host of the base domain is not resolved against it"),
+        }
+        kani::cover!(H < D + 2 || matches!(&got, Some(vh) if vh.bucket().is_some()));
+        kani::cover!(H == D || got.is_none());
+        forget(got);
+    }
+
+    macro_rules! resolve_harness {
+        ($name:ident, $d:expr, $h:expr, $unwind:expr) => {
+            #[kani::proof]
+            #[kani::unwind($unwind)]
+            #[kani::stub(core::slice::memchr::memchr, verif_naive_memchr)]
+            fn $name() {
+                resolve::<$d, $h>();
+            }
+        };
+    }
+    resolve_harness!(c12_resolve_1_1, 1, 1, 3);
+    resolve_harness!(c12_resolve_1_3, 1, 3, 5);
+    resolve_harness!(c12_resolve_3_3, 3, 3, 5);
+    resolve_harness!(c12_resolve_3_5, 3, 5, 7);
+    resolve_harness!(c12_resolve_3_6, 3, 6, 8);
+    resolve_harness!(c12_resolve_2_6, 2, 6, 8);
+    resolve_harness!(c12_resolve_3_2, 3, 2, 5);
+}
